@@ -86,9 +86,9 @@ def run(ctx):
         return None
 
     tours, st = plan_tours(dump, lambda s: json.dumps(s, sort_keys=True), op_of, lambda s: {} if s["steps"] == 0 else None,
-                           max_tours=400 if q else 6000, rnd=rnd)
+                           max_tours=400 if q else 2500, rnd=rnd)
     os.remove(dump)
-    pairs = [(REAL_FIELDS[i], REAL_FIELDS[(i + 1 + j) % len(REAL_FIELDS)]) for i in range(len(REAL_FIELDS)) for j in range(1 if q else 5)]
+    pairs = [(REAL_FIELDS[i], REAL_FIELDS[(i + 1 + j) % len(REAL_FIELDS)]) for i in range(len(REAL_FIELDS)) for j in range(1 if q else 2)]
     tf = os.path.join(ctx.work, "cache-tours.jsonl")
     nt = 0
     with open(tf, "w") as f:
